@@ -926,8 +926,9 @@ def exhaustive_splay_cases(nkeys=4, depth=5):
 # C12: call histories; C18 / C03: child processes
 
 class _F:
-    def __init__(self, kind, detail):
+    def __init__(self, kind, detail, scenario=None):
         self.kind, self.case, self.detail, self.run, self.check, self.known = kind, None, detail, None, None, None
+        self.scenario = scenario     # (harness sub-command, arguments): re-executed by --replay
 
 
 def scan_sources():
@@ -1037,12 +1038,12 @@ def c18_stack(tier):
             span = (int(m.group(2)) - int(m.group(1))) if m else None
             rows.append({"scenario": name, "n": n, "thread_2MiB": thr, "exit": rc, "drop_depth_span_bytes": span})
             if rc != 0 or "DONE" not in out:
-                findings.append(_F("O", "stack: scenario %s n=%d%s ended with exit status %s (%s)" % (name, n, " on a 2 MiB thread" if thr else "", rc, err.strip()[-120:])))
+                findings.append(_F("O", "stack: scenario %s n=%d%s ended with exit status %s (%s)" % (name, n, " on a 2 MiB thread" if thr else "", rc, err.strip()[-120:]), scenario=["stack", name, str(n)] + (["thread"] if thr else [])))
             elif "teardown_order=mixed" in out:
-                findings.append(_F("O", "stack: scenario %s n=%d frees the nodes out of key order; the modelled teardown loop frees them in ascending order" % (name, n)))
+                findings.append(_F("O", "stack: scenario %s n=%d frees the nodes out of key order; the modelled teardown loop frees them in ascending order" % (name, n), scenario=["stack", name, str(n)] + (["thread"] if thr else [])))
             elif span is not None and span > 2048:
                 # an iterative teardown drops every key at the same stack depth; recursion shows as a span
-                findings.append(_F("O", "stack: scenario %s n=%d drops keys over a stack depth range of %d bytes: the teardown recurses" % (name, n, span)))
+                findings.append(_F("O", "stack: scenario %s n=%d drops keys over a stack depth range of %d bytes: the teardown recurses" % (name, n, span), scenario=["stack", name, str(n)] + (["thread"] if thr else [])))
     return findings, {"stack_scenarios": rows, "samples": [{"scenario": r["scenario"], "n": r["n"], "exit": r["exit"]} for r in rows[:3]]}
 
 
@@ -1062,7 +1063,7 @@ def c03_large_children(tier):
             rows.append({"scenario": sc, "teeth": n, "thread_2MiB": thr, "exit": rc})
             if rc != 0 or "DONE" not in out:
                 findings.append(_F("O", "large input: boolean operation %s with %d teeth%s ended with exit status %s (%s)" % (
-                    sc, n, " on a 2 MiB thread" if thr else "", rc, err.strip()[-120:])))
+                    sc, n, " on a 2 MiB thread" if thr else "", rc, err.strip()[-120:]), scenario=["stack", sc, str(n)] + (["thread"] if thr else [])))
     return findings, {"large_children": rows}
 
 
